@@ -205,6 +205,7 @@ impl<K: Clone + PartialEq + Eq + Hash + std::fmt::Debug + std::cmp::PartialOrd, 
         {
             let mut keys: Vec<K> = map.keys().cloned().collect();
             crate::verif::sort_by_key(&mut keys, |k| k);
+            // (entries in use are never dropped, as below)
             let pick = |in_use_ok: bool| {
                 let mut best: Option<(usize, K)> = None;
                 for k in keys.iter() {
@@ -219,7 +220,7 @@ impl<K: Clone + PartialEq + Eq + Hash + std::fmt::Debug + std::cmp::PartialOrd, 
                 }
                 best.map(|b| b.1)
             };
-            let key = pick(false).or_else(|| pick(true))?;
+            let key = pick(false)?;
             let entry = map.remove(&key).unwrap();
             return Some((key, entry));
         }
